@@ -1,2 +1,15 @@
 import QG.Props.C01
-#print axioms QG.C01.stage1_stub
+#print axioms QG.C01.standard_spec
+#print axioms QG.C01.efficient_spec
+#print axioms QG.C01.ones_spec
+#print axioms QG.C01.empty_layer_list
+#print axioms QG.C01.efficient_too_many_operands
+#print axioms QG.C01.standard_linear
+#print axioms QG.C01.efficient_linear
+#print axioms QG.C01.ones_linear
+#print axioms QG.C01.standard_identity_irrelevant
+#print axioms QG.C01.efficient_identity_irrelevant
+#print axioms QG.C01.ones_identity_irrelevant
+#print axioms QG.C01.backends_agree
+#print axioms QG.C01.singleLayer_wf
+#print axioms QG.C01.msb_first
